@@ -449,9 +449,9 @@ def r5_character_slots(ctx, rep):
 
 
 RULES = [
-    RuleSpec("C01.R5", r5_character_slots, "character selector slots are filled at most once", floor=4),
-    RuleSpec("C01.R1", r1_case_neutral, "case-neutral recognition", floor=45),
+    RuleSpec("C01.R5", r5_character_slots, "character selector slots are filled at most once", floor=2),
+    RuleSpec("C01.R1", r1_case_neutral, "case-neutral recognition", floor=24),
     RuleSpec("C01.R2", r2_lower_discipline, "lower-case discipline for keyword comparisons", floor=25),
-    RuleSpec("C01.R4", r4_container_matrix, "container x construct matrix", floor=60),
-    RuleSpec("C01.R3", r3_dispatch_matrix, "dispatch matrix vs statement-head languages", floor=200),
+    RuleSpec("C01.R4", r4_container_matrix, "container x construct matrix", floor=50),
+    RuleSpec("C01.R3", r3_dispatch_matrix, "dispatch matrix vs statement-head languages", floor=151),
 ]
